@@ -5,13 +5,13 @@
 patch=$1; prop=$2; tier=${3:-quick}
 M=/tmp/vmirror; R=/tmp/repo-seed
 mkdir -p $M
-rsync -a --delete --exclude bin /verif/harness/ $M/harness/
+rsync -a --delete --exclude bin ${SRC_HARNESS:-/verif/harness}/ $M/harness/
 cp /verif/check.sh /verif/known_findings.txt $M/
 sed -i "s#=> /repo#=> $R#" $M/harness/go.mod
 head=$(git -C /repo rev-parse HEAD)
 if [ ! -d $R ]; then git -C /repo worktree add -q --detach $R $head || exit 2; fi
 cd $R && git checkout -q -- . && git clean -fdq && git checkout -q --detach $head || exit 2
-git apply "$patch" || { echo "PATCH DOES NOT APPLY"; exit 3; }
+if [ "$patch" != none ]; then git apply "$patch" || { echo "PATCH DOES NOT APPLY"; exit 3; }; fi
 cd $M
 VERIF_DIR=$M timeout ${SEED_TIMEOUT:-900} ./check.sh $prop $tier > /tmp/seedtest-mirror.out 2>&1
 rc=$?
